@@ -141,7 +141,9 @@ def union_misaligned(sql):
         if len(top) != len(bot):
             return True
         # explicit lists of base columns (u<i>, a<i>, b<i>, k<i>, c<i> in the generator's schema): same role per position
-        role = lambda x: x[0] if re.fullmatch(r"[uabkc][0-9]", x) else None
+        def role(x):
+            x = x.split(" AS ")[0].split(".")[-1].strip()
+            return x[0] if re.fullmatch(r"[uabkc][0-9]", x) else None
         if any(role(a) and role(b) and role(a) != role(b) for a, b in zip(top, bot)):
             return True
     return False
